@@ -225,6 +225,20 @@ pub fn make_ctx(rng: &mut Rng, prof: &Profile, pk8: &[u8], pub_b64: &str, pub2_b
     // a signature by the right key over the hash as a careless server would spell it (upper-case hex): it is not a
     // signature over the content's hash, though it is one over the string the server advertises
     for t in &targets { all_sigs.push(rsa_sign(pk8, &sha256_hex(t).to_uppercase())); }
+    // the correct signature in a non-canonical spelling: padding cut off, unused low bits of the last symbol set
+    // (strict base64 rejects both; a lenient decoder yields the genuine signature bytes)
+    for s in &sigs {
+        let unpadded = s.trim_end_matches('=').to_string();
+        all_sigs.push(unpadded.clone());
+        let mut b: Vec<u8> = unpadded.into_bytes();
+        if let Some(l) = b.last_mut() {
+            let alphabet = b"ABCDEFGHIJKLMNOPQRSTUVWXYZabcdefghijklmnopqrstuvwxyz0123456789+/";
+            if let Some(i) = alphabet.iter().position(|c| c == l) { *l = alphabet[i | 1]; }
+        }
+        let mut t = String::from_utf8(b).unwrap();
+        while t.len() % 4 != 0 { t.push('='); }
+        all_sigs.push(t);
+    }
     let all_contents = targets.clone();
     Ctx {
         base, other_base, numbers, targets, patches, wrong_base_patches, key_mode: km, key, sigs,
@@ -268,6 +282,8 @@ fn gen_sig(rng: &mut Rng, ctx: &Ctx, i: usize) -> Option<String> {
             3 => Some(ctx.all_sigs[ctx.sigs.len() + 2].clone()),     // other key
             4 => Some(ctx.all_sigs[ctx.sigs.len() + 3].clone()),     // other message
             5 => Some(ctx.sigs[(i + 1) % ctx.sigs.len()].clone()),   // signature of another patch
+            6 => Some(ctx.all_sigs[2 * ctx.sigs.len() + 4 + 2 * i].clone()),      // right signature, padding cut off
+            7 => Some(ctx.all_sigs[2 * ctx.sigs.len() + 4 + 2 * i + 1].clone()),  // right signature, last symbol's unused bits set
             _ => Some(ctx.sigs[i].clone()),
         },
     }
